@@ -373,6 +373,7 @@ func runC08(c *Ctx) {
 	// flags word announces is checked to be there: otherwise a truncated packet decodes without error and the bytes are
 	// interpreted later, outside the decoder's error handling
 	checkAttrsValidatedAtDecode(c, "O7")
+	checkRequestConstructorErrorExamined(c, "O8")
 
 	// every call site of a function whose obligations were lifted establishes the requirement: those are the
 	// "call" obligations already decided above; make sure none was silently skipped
@@ -1444,6 +1445,21 @@ func checkFrameLimits(c *Ctx, w *zworld) {
 					_ = ms
 					c.check(ok1 && ok2, "O3", "filexfer readPacket limits", p.Pos(in.Pos()), "5 <= length <= maxPacketLength before allocating", "filexfer's readPacket allocates the body without the length limits")
 				}
+				// and nothing longer than four bytes is refused as too short: a packet with a type, an id and no body (an
+				// empty extended reply) is five bytes, and the codec's own MarshalPacket writes it
+				if r, ok := in.(*ssa.Return); ok && isReturn(in) && len(r.Results) == 2 && dominates(lengthV.(ssa.Instruction), in) {
+					isShort := false
+					for _, l := range leavesOf(r.Results[1]) {
+						if l.Kind == leafGlobal && l.V.Name() == "ErrShortPacket" {
+							isShort = true
+						}
+					}
+					if isShort {
+						okS, why := z.prove(in, []lin{leq(lt, linConst(4), 0)})
+						c.check(okS, "O3", "filexfer readPacket refuses as short only what is shorter than five bytes", p.Pos(in.Pos()), "length <= 4 where ErrShortPacket is returned",
+							"filexfer's readPacket refuses a frame as too short whose length is not shown to be below five ("+why+"): a body-less packet that the codec itself encodes cannot be read back")
+					}
+				}
 			})
 			// the error of the body read is returned
 			okRet := false
@@ -1548,4 +1564,57 @@ func checkCutFrameIsNotCleanEOF(c *Ctx, rule string) {
 			"the error of the body read is handed back as it is: when the stream ends right behind a frame's length word io.ReadFull answers io.EOF, the clean-end sentinel, and the caller takes a cut frame for an orderly shutdown")
 	}
 	c.check(n >= 2, rule, "frame readers", "?", fmt.Sprintf("%d readers", n), fmt.Sprintf("only %d frame readers found (recvPacket, filexfer readPacket)", n))
+}
+
+// checkRequestConstructorErrorExamined (C08.O8): filexfer's RequestPacket.UnmarshalFrom asks newPacketFromType for an
+// empty packet of the type byte; for the 237 bytes that are no request type it gets (nil, error).  The decoder must not
+// reach the call of the packet's UnmarshalPacketBody on the side where that error is not nil — tested on another
+// variable (the buffer's sticky error, say) every non-request type byte dereferences a nil interface: a panic in
+// UnmarshalBinary/ReadFrom instead of an error.
+func checkRequestConstructorErrorExamined(c *Ctx, rule string) {
+	p := c.P
+	var fn *ssa.Function
+	for _, f := range p.ModuleFuncs() {
+		if f.Pkg == p.Sshfx && f.Name() == "UnmarshalFrom" && f.Signature.Recv() != nil && typeName(f.Signature.Recv().Type()) == "RequestPacket" {
+			fn = f
+		}
+	}
+	if fn == nil {
+		c.missing(rule, "sshfx (*RequestPacket).UnmarshalFrom")
+		return
+	}
+	var ctor *ssa.Call
+	eachInstr(fn, func(in ssa.Instruction) {
+		if call, ok := in.(*ssa.Call); ok && calleeName(&call.Call) == "newPacketFromType" {
+			ctor = call
+		}
+	})
+	key := "RequestPacket.UnmarshalFrom decodes a body only with a packet"
+	if ctor == nil {
+		c.okT(rule, key, p.Pos(fn.Pos()), "the constructor table is written into the decoder itself (its arms are judged by C06.R12)")
+		return
+	}
+	var errEx *ssa.Extract
+	for _, r := range *ctor.Referrers() {
+		if ex, ok := r.(*ssa.Extract); ok && ex.Index == 1 {
+			errEx = ex
+		}
+	}
+	isBody := func(in ssa.Instruction) bool {
+		cc := callOf(in)
+		return cc != nil && cc.IsInvoke() && cc.Method.Name() == "UnmarshalPacketBody"
+	}
+	good := errEx != nil
+	if good {
+		tests := nilTests(errEx)
+		if len(tests) == 0 {
+			good = false
+		}
+		for _, nt := range tests {
+			if reachFromNilSide(nt, true, isBody, nil) {
+				good = false
+			}
+		}
+	}
+	c.check(good, rule, key, p.Pos(ctor.Pos()), "the error of newPacketFromType is tested and the body decoder lies on its nil side", "the body decoder of the request packet can be called although newPacketFromType failed (its error is not what is tested): every type byte that is no request dereferences a nil packet and panics")
 }
